@@ -47,6 +47,7 @@ func (p *UnsafePool) get(v Value) *weakRef {
 	id := w.id()
 	r := p.weakrefs[id]
 	if r == nil {
+		setFinalizer(v, nil) // see ClonePool.Mark
 		setFinalizer(v, p.goFinalizer)
 		r = &weakRef{
 			w:    w,
